@@ -301,8 +301,14 @@ class Ctx:
         self.log("proof obligations: %d theorems, accepted=%s" % (len(thms), ok))
         if ok and self.thorough() and not self.replay:
             # independent re-check of the compiled property file and everything it depends on
-            with Lock("coq-" + self.prop):
-                rc, out = sh("timeout 1500 coqchk -o -silent -Q . LJT LJT.props.%s" % self.prop, cwd=COQ)
+            # at most 4 coqchk processes at a time (each may need several GB)
+            slot = int(hashlib.sha1(self.prop.encode()).hexdigest(), 16) % 4
+            for attempt in (1, 2):
+                with Lock("coqchk-slot%d" % slot), Lock("coq-" + self.prop):
+                    rc, out = sh("timeout 2400 coqchk -o -silent -Q . LJT LJT.props.%s" % self.prop, cwd=COQ)
+                if rc == 0:
+                    break
+                self.log("coqchk attempt %d rc=%d" % (attempt, rc))
             tail = out[-3000:]
             self.cov["coqchk"] = {"rc": rc, "output_tail": tail}
             self.log("coqchk rc=%d" % rc)
